@@ -138,6 +138,9 @@ func c01probes() []c01probe {
 				Views: []*m.View{{Name: "default", Fields: views("items", "other")}}}}, nil,
 			&m.Method{Name: "m", Result: m.UserRef("Tree"), HTTP: &m.HTTPEndpoint{Routes: route("GET", "/m"), Responses: []*m.Response{{Status: 200, Cookies: []m.Mapping{{Attr: "items"}}}}}}))
 	}
+	add("C01-map-key-bool-or-float-gen-fails", pdesign(nil, nil, &m.Method{Name: "m",
+		Payload: rt.Obj(rt.Fld("flags", &m.Attr{Type: &m.Type{Kind: m.Map, Key: m.Prim(m.Boolean), Val: m.Prim(m.Int64)}}, false)),
+		HTTP:    &m.HTTPEndpoint{Routes: route("POST", "/m")}}))
 	// gRPC
 	{
 		health := &m.Service{Name: "health", HasHTTP: true, Methods: []*m.Method{{Name: "ping", HTTP: &m.HTTPEndpoint{Routes: route("GET", "/ping")}}}}
